@@ -52,7 +52,7 @@ def cases(draw):
         s2 = draw(st.sampled_from(gen.SETTINGS_3D))
         if draw(st.sampled_from([False, False, True])):
             s1 = (2, (4, 4, 1024))
-        c["shape"] = list(draw(gen.shape3d(s1[1], max_voxels=150_000, max_traces=700)))
+        c["shape"] = list(draw(gen.shape3d(s1[1], max_voxels=150_000, max_traces=700, magnitudes="lines")))
     c["s1"] = [s1[0], list(s1[1])]
     c["s2"] = [s2[0], list(s2[1])]
     if kind == "segy3d" and draw(st.integers(0, 3)) == 0:
